@@ -8,6 +8,7 @@ import (
 	"os"
 	"os/exec"
 	"path/filepath"
+	"runtime/pprof"
 	"sort"
 	"strconv"
 	"strings"
@@ -19,6 +20,8 @@ import (
 )
 
 type ssaFunc = ssa.Function
+
+var timeLimitSec int
 
 const (
 	repoDir  = "/repo"
@@ -75,6 +78,7 @@ func cmdCheck(args []string) int {
 	workers := fs.Int("workers", 16, "workers")
 	noReplay := fs.Bool("no-replay", false, "skip native replay (debug)")
 	solver := fs.String("solver", "z3", "z3|z3-new|cvc5")
+	fs.IntVar(&timeLimitSec, "time-limit", 0, "stop exploring each harness after this many seconds (inconclusive)")
 	var prop string
 	if len(args) > 0 && !strings.HasPrefix(args[0], "-") {
 		prop = args[0]
@@ -93,6 +97,11 @@ func cmdCheck(args []string) int {
 	seed := 0
 	if s := os.Getenv("VERIF_SEED"); s != "" {
 		seed, _ = strconv.Atoi(s)
+	}
+	if pf := os.Getenv("SYMGO_PROF"); pf != "" {
+		f, _ := os.Create(pf)
+		pprof.StartCPUProfile(f)
+		defer pprof.StopCPUProfile()
 	}
 	t0 := time.Now()
 	res := runCheck(prop, *tier, seed, *only, *verbose, *workers, *noReplay, *solver)
@@ -227,6 +236,9 @@ func runCheck(prop, tier string, seed int, only string, verbose bool, workers in
 		res.HarnessNames = append(res.HarnessNames, name)
 		for _, r := range sym.ReachMarkers(h) {
 			required[name+"/"+r] = true
+		}
+		if timeLimitSec > 0 {
+			ex.Deadline = time.Now().Add(time.Duration(timeLimitSec) * time.Second)
 		}
 		ex.RunHarness(h, name)
 		if ex.PathLimitHit {
